@@ -159,6 +159,35 @@ pub fn supported(model: ModelId, kind: Kind) -> bool {
     }
 }
 
+/// (width, height, offset x, offset y) of common panel modules built around the controller, plus the
+/// generic ones every controller is used with (full framebuffer, a square at either end); only those
+/// that fit the model's framebuffer
+pub fn known_geometries(model: ModelId) -> Vec<(u16, u16, u16, u16)> {
+    let (fw, fh) = model.fb();
+    let name = model.name();
+    let mut v: Vec<(u16, u16, u16, u16)> = vec![(fw, fh, 0, 0)];
+    if fw < fh {
+        v.push((fw, fw, 0, 0));
+        v.push((fw, fw, 0, fh - fw));
+    }
+    if name.contains("ST7735") {
+        v.extend([(80, 160, 26, 1), (80, 160, 24, 0), (128, 160, 0, 0), (128, 160, 2, 1), (128, 128, 2, 1), (128, 128, 2, 3), (128, 128, 0, 32)]);
+    }
+    if name.contains("ST7789") {
+        v.extend([(240, 240, 0, 0), (240, 240, 0, 80), (135, 240, 52, 40), (135, 240, 53, 40), (170, 320, 35, 0), (172, 320, 34, 0), (240, 280, 0, 20)]);
+    }
+    if name.contains("GC9107") {
+        v.extend([(128, 128, 0, 0), (128, 128, 2, 1), (128, 128, 0, 32)]);
+    }
+    if name.contains("ILI9341") || name.contains("ILI9342") {
+        v.extend([(240, 240, 0, 0), (240, 240, 0, 80), (320, 240, 0, 0), (240, 320, 0, 0)]);
+    }
+    v.retain(|&(w, h, ox, oy)| w > 0 && h > 0 && w as u32 + ox as u32 <= fw as u32 && h as u32 + oy as u32 <= fh as u32);
+    v.sort();
+    v.dedup();
+    v
+}
+
 pub fn config(menu: ConfigMenu) -> BoxedStrategy<Config> {
     let models = menu.models.clone();
     let transports = menu.transports.clone();
@@ -197,13 +226,16 @@ pub fn config(menu: ConfigMenu) -> BoxedStrategy<Config> {
                 Transport::Spi { .. } => spi_buf(n).prop_map(|buf| Transport::Spi { buf: buf as u32 }).boxed(),
                 x => Just(x).boxed(),
             };
-            (
-                Just(model),
-                tstrat,
-                window(fw, fh, if t.pin_level() && ws != WindowSize::Wide { WindowSize::Small } else { ws }, cap),
-                orient(),
-                any::<[bool; 4]>(),
-            )
+            let generated = window(fw, fh, if t.pin_level() && ws != WindowSize::Wide { WindowSize::Small } else { ws }, cap);
+            // one window in eight (on the transports where size does not matter for the cost) is the
+            // geometry of a panel module people actually buy
+            let known = known_geometries(model);
+            let win: BoxedStrategy<(u16, u16, u16, u16)> = if !t.pin_level() && !huge && !known.is_empty() {
+                prop_oneof![7 => generated, 1 => proptest::sample::select(known)].boxed()
+            } else {
+                generated
+            };
+            (Just(model), tstrat, win, orient(), any::<[bool; 4]>())
         })
         .prop_map(|(model, transport, (w, h, ox, oy), orient, b)| Config {
             model,
